@@ -382,6 +382,28 @@ def gen(ctx):
     return out
 
 
+def gen_real(ctx):
+    """part B: conversations for the real transports (a loop run after every event)"""
+    rng = ctx.rng
+    quick = ctx.tier == "quick"
+    out = []
+    GB = ["none", "peer", "local", "local-only"]
+    shapes = [(ch, "abort", "none") for ch in (0, 1)] + [(ch, "welcome", g) for ch in (0, 1, 2) for g in GB]
+    for ch, outc, gb in shapes:
+        for rep in range(1 if quick else 4):
+            hooks = rand_hooks(rng, p=0.0 if rep == 0 else 0.3)
+            nreq = {k: rng.choice([0, 1, 2]) for k in sc.KINDS} if outc == "welcome" else {}
+            steps = base(rng, ch, outc, gb, nreq, hooks)
+            out.append(("real-grammar", render(steps, "always", rng), spec_ok_hooks(hooks)))
+            pos = list(range(1, len(steps) + 1))
+            for what in ("illegal", "leave", "disconnect", "loss"):
+                for p in rng.sample(pos, min(len(pos), 2 if quick else 6)):
+                    m = mutate(steps, rng, what, p)
+                    if m is not None:
+                        out.append(("real-" + what, render(m, "always", rng), spec_ok_hooks(hooks)))
+    return out
+
+
 CORPUS = [
     # F11: two ABORT before WELCOME
     (["open", "pump", "m.abort", "pump", "m.abort", "pump", "closed", "pump"], True),
@@ -396,13 +418,22 @@ CORPUS = [
 ]
 
 
-def late_handshake_corpus():
-    """every (ending, late handshake message) combination, so that the whole family is reported on every run"""
+def late_handshake_corpus(same_read=False):
+    """every (ending, late handshake message) combination, so that the whole family is reported on every run.
+    same_read: the late message follows in the same read (what a real transport still delivers after close())"""
     out = []
     ends = {"m.abort": ["m.abort"], "m.goodbye": ["m.welcome,7,-", "pump", "m.goodbye"], "m.challenge-failed": ["m.challenge;x"]}
     for e, toks in ends.items():
         for late in ("m.abort", "m.welcome,9,-", "m.challenge;x"):
+            if same_read:
+                # (a late failing CHALLENGE makes this side send ABORT on a transport it has already closed: what send()
+                # does then differs between the transports and is not part of the model)
+                if e != "m.challenge-failed" and late != "m.challenge;x":
+                    out.append((["open", "pump"] + toks + [late, "pump", "closed", "pump"], True))
+                continue
             out.append((["open", "pump"] + toks + ["pump", late, "pump", "closed", "pump"], True))
+    if same_read:
+        return out
     # asyncio: a message in the same read as WELCOME; GOODBYE one loop iteration after WELCOME
     for late in ("m.goodbye", "m.abort", "m.challenge;rv1", "m.challenge;x", "m.welcome,9,-"):
         out.append((["open", "pump", "m.welcome,7,-", late, "pump", "closed", "pump"], True))
@@ -441,4 +472,21 @@ def run(ctx):
     ctx.log(f"{len(uniq)} scripts, {sum(len(s) for _, s, _ in uniq)} events")
     st = sc.check_traces(ctx, res, uniq, owns, classify)
     res.notes.append("trace-Spec violations by key: " + ", ".join(st["keys"]) if st["keys"] else "no trace-Spec violation")
+    # part B: the same conversations over the real transports
+    real = [("corpus", s, sp) for s, sp in CORPUS + late_handshake_corpus()] + \
+           [("corpus-same-read", s, sp, False) for s, sp in late_handshake_corpus(same_read=True)] + gen_real(ctx) + \
+           [it for it in uniq if it[0] in ("grammar", "hook")][:(40 if ctx.tier == "quick" else 400)]
+    for it in real:
+        res.count("class:" + it[0])
+    ctx.log(f"part B: {len(real)} scripts x {len(sc.COMBOS)} transport/serializer combinations x 2 frameworks")
+    st2 = sc.check_real(ctx, res, real, owns, classify)
+    res.notes.append("part B (real WebSocket / RawSocket transports, json / msgpack / cbor): "
+                     + ("violations by key: " + ", ".join(st2["keys"]) if st2["keys"] else "no trace-Spec violation")
+                     + f"; correspondence breaks: {st2['breaks']}")
+    seen_keys, vs = set(), []
+    for v in res.violations:
+        if v.key not in seen_keys:
+            seen_keys.add(v.key)
+            vs.append(v)
+    res.violations[:] = vs
     return res
